@@ -65,7 +65,7 @@ func TestVerifC18API(t *testing.T) {
 	ctx := context.Background()
 	nIdx := 0
 
-	n := r.N(160, 20000)
+	n := r.N(160, 6400)
 	r.Cases("api", n, func(i int, id string, rng *vk.Rand) {
 		q := quanta[rng.Intn(len(quanta))]
 		finest := q[len(q)-1]
